@@ -13,7 +13,7 @@ tvars == <<l, b, which, obs, exp, viol, pend>>
 TInit == /\ l = 1 /\ b = NoBuf /\ which = "" /\ obs = [flat |-> << >>, boxed |-> << >>]
          /\ exp = << >> /\ viol = {} /\ pend = << >>
 
-V(c, p, m) == IF c THEN {<<p, m, l>>} ELSE {}
+V(c, p, m) == IF c /\ p \notin {v[1] : v \in viol} THEN {<<p, m, l>>} ELSE {}
 Obs(x) == [obs EXCEPT ![which] = Append(@, x)]
 
 TNext ==
@@ -71,7 +71,7 @@ TNext ==
        [] e.e = "qdroppedq" -> /\ obs' = Obs(<<"droppedq">>) /\ UNCHANGED <<b, which, exp, viol, pend>>
        [] e.e = "qend" -> /\ obs' = Obs(<<"end">>) /\ UNCHANGED <<b, which, exp, viol, pend>>
        [] e.e = "qcrash" ->
-            /\ viol' = viol \cup {<<p, "process aborted while driving the " \o e.which \o " queue: " \o e.msg, l>> : p \in {"C17", "C16"}}
+            /\ viol' = viol \cup {<<p, "process aborted while driving the " \o e.which \o " queue: " \o e.msg, l>> : p \in {"C17", "C16"} \ {v[1] : v \in viol}}
             /\ UNCHANGED <<b, which, obs, exp, pend>>
        [] e.e = "qcaseend" ->
             /\ viol' = viol \cup V(obs.flat # obs.boxed, "C17", "flat and boxed queue differ in observable behaviour (run order / data / drops / is_empty)")
